@@ -12,15 +12,15 @@ from ..spec import P, le
 
 EXPLANATION = """
 [OWN] every open() in write_blocks_to_disk has the constant mode 'ab'; no seek / truncate / remove / rename / unlink /
-os.replace / shutil call in the function (bytes already written are never touched). [COUNT] on every path through one
-iteration of the block loop there is exactly one write call; [TERM] it writes the record magic || len(4 LE) || block of that
-iteration's block. [DOM] a write to the file that was current at the start of the iteration is dominated by
-len(record) + tell() <= MAX_BLOCKFILE_SIZE with tell() taken on that same handle; otherwise the write goes to a file opened in
-this iteration. [TERM/TYPE] the roll-over name is 'blk' + 5-digit(previous number + 1) + '.dat' where the previous number is
-parsed from the CURRENT file's name (carried through the loop, so consecutive roll-overs keep counting), joined to datadir;
-the full file is closed before the next one is opened; the last handle is closed after the loop. [TERM] the first file is the
-last .dat file in sorted order, or blk00000.dat. [TABLE] MAX_BLOCKFILE_SIZE = 0x8000000 in both modules.
-The OWN and COUNT rules also run on a positive fixture (fixtures/c19_bad_store.py) and must fire there.
+os.replace / shutil call in the function (bytes already written are never touched). [SCENARIO] the function is evaluated
+against a scripted file system: 3 directory listings x 10 size situations (plenty of room, a record that fills the current
+file exactly, one byte too long, an over-full first file, a block larger than a whole file between two small ones). tell()
+answers with the size of the file the handle was opened on, so every size test folds to a constant however it is written.
+The open / write / close events must be the reference sequence: every block written exactly once, in order, as
+magic || len(4 LE) || block; to the current file iff len(record) + size <= MAX_BLOCKFILE_SIZE, else after closing it to
+'blk' + 5-digit(current number + 1) + '.dat' in datadir (also twice in a row); the first file is the last .dat in sorted
+order or blk00000.dat; every open in append mode; the last file closed at the end. [TABLE] MAX_BLOCKFILE_SIZE = 0x8000000 in
+both modules. The OWN rule also runs on a positive fixture (fixtures/c19_bad_store.py) and must fire there.
 """
 NOT_DECIDED = "real crash behaviour of the OS / file system (only 'bytes are never rewritten' and the close order are decided); directory listing order beyond 5-digit names"
 ASSUMPTIONS = ["file.tell() on an append-mode handle returns the current file size", "os.listdir returns the directory's entries"]
@@ -71,34 +71,25 @@ def run(ctx):
         R.check("C19.1", "OWN", fi, node, False, "append-only violated: " + msg, example="a crash during a write, or a second batch")
     R.check("C19.1", "OWN", fi, "block files only opened with mode 'ab', never repositioned / truncated / renamed", not viol, "")
     R.floor("C19.1", n_open, 2, "open_sites")
-    # ---- COUNT
-    bad, npaths = count_violations(fi.node)
-    if bad is None:
-        R.check("C19.2", "COUNT", fi, "block loop located", False, "expected one for-loop over the blocks, found %s" % npaths)
-    else:
-        R.check("C19.2", "COUNT", fi, "exactly one write per block on every path (%d paths)" % npaths, not bad and npaths >= 2,
-                "a path through one iteration writes %s records (%s)" % ((bad[0][0], bad[0][1]) if bad else ("?", "?")),
-                example="the block that triggers the roll-over to the next file")
     # canary
     fx = ast.parse(open(os.path.join(VERIF, "fixtures", "c19_bad_store.py")).read())
     ffn = [n for n in fx.body if isinstance(n, ast.FunctionDef)][0]
     fv, _ = own_violations(ffn)
     R.canary("C19.1", len(fv) >= 3, "fixtures/c19_bad_store.py: r+b / seek / truncate / rename")
-    fb, _ = count_violations(ffn)
-    R.canary("C19.2", bool(fb), "fixtures/c19_bad_store.py: a block may be skipped")
 
-    # ---- traces: the function is evaluated on three blocks of fixed sizes (arbitrary contents), a concrete directory
-    # listing, and a scripted answer to every "does the record still fit?" test; the sequence of open / write / close
-    # events must be the reference sequence for that scenario, whatever the shape of the loop body
+    # ---- traces: the function is evaluated against a scripted file system -- a concrete directory listing, a first file of a
+    # chosen size, blocks of fixed sizes and arbitrary contents; tell() answers with the size of the file the handle was
+    # opened on. Every size test the code makes folds to a constant, however it is written; the sequence of open / write /
+    # close events must be the one the block-file rules give for that scenario.
     ev = ctx.evaluator()
     MAX = ev.const("bits.p2p", "MAX_BLOCKFILE_SIZE")
     R.check("C19.4", "TABLE", fi, "MAX_BLOCKFILE_SIZE = 0x8000000 (both modules)", MAX == 0x8000000 and ev.const("bits.blockchain", "MAX_BLOCKFILE_SIZE") == 0x8000000,
             "MAX_BLOCKFILE_SIZE = %s / %s" % (tm.show(MAX), tm.show(ev.const("bits.blockchain", "MAX_BLOCKFILE_SIZE"))), nontrivial=False)
-    magic = T("global", ("bits.p2p.MAGIC_START_BYTES",), tm.NONE)
+    if MAX != 0x8000000:
+        return
+    magic_g = T("global", ("bits.p2p.MAGIC_START_BYTES",), tm.NONE)
+    magic = tm.sized("magic", 4)
     datadir = P("datadir", tm.STR)
-    sizes = [81, 200, 33]
-    blocks = [tm.sized("blk%d" % i, n) for i, n in enumerate(sizes)]
-    records = [tm.cat([magic, le(n, 4), b]) for n, b in zip(sizes, blocks)]
     listings = [([], "blk00000.dat"), (["blk00003.dat", "notes.txt", "blk00007.dat"], "blk00007.dat"), (["blk00099.dat"], "blk00099.dat")]
     ldir = tm.app("os.listdir", [datadir], ty=tm.LIST)
 
@@ -113,41 +104,50 @@ def run(ctx):
             return path_of(rules.unfz(h.args[0]))
         return None, None
 
-    import itertools
+    def pj(name):
+        return T("pathjoin", (datadir, name), tm.STR)
+
+    small = [81, 200, 33]
+    rec = lambda n: n + 8
+    scen = [("plenty of room", 0, small), ("plenty of room in a used file", 12345, small)]
+    for k in range(3):
+        used = sum(rec(n) for n in small[:k + 1])
+        scen.append(("record %d fills the file exactly" % k, MAX - used, small))
+        scen.append(("record %d is one byte too long for the file" % k, MAX - used + 1, small))
+    scen.append(("a block larger than a whole file between two small ones", 500, [81, MAX, 33]))
+    scen.append(("first file already over the limit", MAX + 5, small))
     n_scen = 0
     problems = {"C19.2": [], "C19.3": [], "C19.4": [], "C19.5": [], "C19.1": []}
     for listing, first in listings:
-        for decisions in itertools.product((True, False), repeat=len(blocks)):
+        for title, init, sizes in scen:
             n_scen += 1
-            asked = []
+            blocks = [tm.sized("blk%d" % i, n) for i, n in enumerate(sizes)]
+            records = [tm.cat([magic, le(n, 4), b]) for n, b in zip(sizes, blocks)]
+            fsize = {tm.show(pj(first)): init}
+            unmodelled = []
 
-            def script(c, decisions=decisions, asked=asked):
-                if not tm.contains(c, lambda t: isinstance(t, T) and t.op == "io" and t.args[0] == "tell"):
+            def device(meth, recv, pos, kw, fsize=fsize, unmodelled=unmodelled):
+                path = path_of(recv)[0]
+                key = tm.show(path) if path is not None else None
+                if meth == "tell" and key is not None and not pos:
+                    return fsize.get(key, 0)
+                if meth == "write" and key is not None and len(pos) == 1 and isinstance(tm.blen(pos[0]), int):
+                    fsize[key] = fsize.get(key, 0) + tm.blen(pos[0])
+                    return tm.blen(pos[0])
+                if meth == "close":
                     return None
-                i = len(asked)
-                if i >= len(decisions):
-                    asked.append((c, None))
-                    return None
-                fits = decisions[i]
-                op = c.args[0] if c.op == "cmp" else None
-                asked.append((c, fits))
-                if op in ("le", "lt"):
-                    return fits
-                if op in ("gt", "ge"):
-                    return not fits
-                return None
-            ev.assume_fn = script
-            ev.bind = {ldir: list(listing)}
+                unmodelled.append(meth)
+                return NotImplemented
+            ev.io_fn = device
+            ev.bind = {ldir: list(listing), magic_g: magic}
             try:
                 sm = ev.run(fi, {"blocks": list(blocks), "datadir": datadir})
             finally:
-                ev.assume_fn = None
+                ev.io_fn = None
                 ev.bind = {}
-            label = "listing %s, fits = %s" % (listing or "empty", list(decisions))
+            label = "listing %s, first file holds %s bytes, %s" % (listing or "empty", init if init < 10 ** 6 else "MAX%+d" % (init - MAX), title)
             events = []
             for c in sm.calls:
-                if c[4] and any(tm.land(list(c[4])) is not True for _ in (0,)):
-                    pass
                 if c[0] == "builtins.open":
                     events.append(("open", c[1][0], c[1][1] if len(c[1]) > 1 else c[2].get("mode")))
                 elif c[0] == "io:write":
@@ -155,20 +155,24 @@ def run(ctx):
                 elif c[0] == "io:close":
                     events.append(("close", path_of(c[1][0])[0], None))
             undecided = [c for c in sm.calls if c[0] in ("builtins.open", "io:write", "io:close") and c[4] and tm.land([g for g in c[4] if not (isinstance(g, T) and g.op == "iter")]) is not True]
-            if undecided or len(asked) != len(blocks):
-                problems["C19.3"].append((label, "%d size tests were evaluated for %d blocks (%d file operations stay conditional): the fit test is not one comparison of len(record) + tell() with the limit per block" % (
-                    len(asked), len(blocks), len(undecided))))
+            kind, _v = rules.strict_outcome(sm)
+            if undecided or unmodelled or kind == "undecided":
+                problems["C19.3"].append((label, "%d file operations stay conditional%s: whether a record still fits is not decided by len(record), tell() of the current file and the limit" % (
+                    len(undecided), (", unmodelled file operations %s" % sorted(set(unmodelled))) if unmodelled else "")))
                 continue
             # reference sequence
-            cur = first
-            want = [("open", T("pathjoin", (datadir, cur), tm.STR), "ab")]
-            for i, fits in enumerate(decisions):
-                if not fits:
-                    want.append(("close", T("pathjoin", (datadir, cur), tm.STR), None))
-                    cur = nxt(cur)
-                    want.append(("open", T("pathjoin", (datadir, cur), tm.STR), "ab"))
-                want.append(("write", T("pathjoin", (datadir, cur), tm.STR), records[i]))
-            want.append(("close", T("pathjoin", (datadir, cur), tm.STR), None))
+            cur, size = first, init
+            want = [("open", pj(cur), "ab")]
+            placement = []
+            for i, n in enumerate(sizes):
+                if rec(n) + size > MAX:
+                    want.append(("close", pj(cur), None))
+                    cur, size = nxt(cur), 0
+                    want.append(("open", pj(cur), "ab"))
+                want.append(("write", pj(cur), records[i]))
+                placement.append(cur)
+                size += rec(n)
+            want.append(("close", pj(cur), None))
             same = len(events) == len(want) and all(a[0] == b[0] and tm.veq(a[1], b[1]) and (tm.veq(a[2], b[2]) if b[2] is not None else True) for a, b in zip(events, want))
             if not same:
                 # classify the first difference
@@ -178,27 +182,26 @@ def run(ctx):
                     problems["C19.2"].append((label, "records written: %s, expected one record magic || len(4 LE) || block per block, in order" % [tm.show(x[1])[:60] for x in gw]))
                 elif any(not tm.veq(a[0], b[0]) for a, b in zip(gw, ww)):
                     k = [i for i, (a, b) in enumerate(zip(gw, ww)) if not tm.veq(a[0], b[0])][0]
-                    problems["C19.4"].append((label, "block %d is written to %s, expected %s" % (k, tm.show(gw[k][0])[:80], tm.show(ww[k][0])[:80])))
+                    def rolls(evs):
+                        out, opened = [], False
+                        for e in evs[1:]:  # after the initial open: was a new file opened since the previous write?
+                            if e[0] == "open":
+                                opened = True
+                            elif e[0] == "write":
+                                out.append(opened)
+                                opened = False
+                        return out
+                    rolled_ok = rolls(events) != rolls(want)  # the roll-over decisions differ: the size test; else the names
+                    oid_ = "C19.3" if rolled_ok else "C19.4"
+                    problems[oid_].append((label, "block %d is written to %s, expected %s%s" % (k, tm.show(gw[k][0])[:80], tm.show(ww[k][0])[:80],
+                                                                                               " (the size test len(record) + tell() <= MAX_BLOCKFILE_SIZE is decided wrongly)" if rolled_ok else "")))
                 elif [e for e in events if e[0] == "open"] != [] and any(e[2] != "ab" for e in events if e[0] == "open"):
                     problems["C19.1"].append((label, "a block file is opened with mode %s" % [e[2] for e in events if e[0] == "open" and e[2] != "ab"][:1]))
                 else:
                     problems["C19.5"].append((label, "open/close order is %s, expected %s" % ([(e[0], tm.show(e[1])[-16:]) for e in events], [(e[0], tm.show(e[1])[-16:]) for e in want])))
-            # the fit test itself: len(record_i) + tell(current handle) <= MAX
-            cur = first
-            for i, (c, fits) in enumerate(asked):
-                okc = isinstance(c, T) and c.op == "cmp" and c.args[0] in ("le", "gt") and c.args[2] == MAX  # x <= MAX, or its negation x > MAX
-                if okc:
-                    lhs = c.args[1]
-                    tells = [t for t in tm.subterms(lhs) if isinstance(t, T) and t.op == "io" and t.args[0] == "tell"]
-                    okc = len(tells) == 1 and (tm.veq(tm.add([lhs, tm.mul([-1, tells[0]])]), 8 + sizes[i]) or tm.veq(tm.add([lhs, tm.mul([-1, tells[0]])]), tm.add([4 + sizes[i], tm.length(magic)]))) and \
-                        tm.veq(path_of(tells[0].args[1])[0], T("pathjoin", (datadir, cur), tm.STR))
-                if not okc:
-                    problems["C19.3"].append((label, "block %d: the fit test is `%s`, expected len(record) + tell(current file) <= MAX_BLOCKFILE_SIZE with len(record) = len(magic) + 4 + %d" % (i, tm.show(c)[:160], sizes[i])))
-                if not fits:
-                    cur = nxt(cur)
     R.floor("C19.2", n_scen, 24, "write_scenarios")
     titles = {"C19.2": ("TERM-EQ", "every block is written exactly once, in order, as magic || len(4 LE) || block (%d scenarios)" % n_scen, "the block that triggers the roll-over to the next file"),
-              "C19.3": ("DOM", "one fit test per block: len(record) + tell(current file) <= MAX_BLOCKFILE_SIZE decides between the current and a new file", "a batch of small blocks that together cross the limit"),
+              "C19.3": ("DOM", "a record goes to the current file iff len(record) + its size <= MAX_BLOCKFILE_SIZE (exact fit, one byte over, over-full file, oversized block), else to a new file", "a batch of small blocks that together cross the limit"),
               "C19.4": ("TERM-EQ", "the first file is the last blk*.dat in sorted order (else blk00000.dat); a roll-over goes to datadir / 'blk' + 5-digit(current number + 1) + '.dat', also twice in a row", "a batch that rolls over twice, or the first roll-over at all"),
               "C19.5": ("DOM", "the full file is closed before the next one is opened; the last file is closed at the end; nothing else is opened or closed", "a crash right after a roll-over"),
               "C19.1": ("TERM-EQ", "every file is opened in append mode", "a second batch")}
